@@ -243,6 +243,28 @@ def print_assumptions(pid, extra_imports=()):
 # ------------------------------------------------------------------------------------------------
 # extracted runner
 # ------------------------------------------------------------------------------------------------
+def coqchk(pid):
+    """coqchk -silent -o on the property's compiled library; -> (ok, [axioms it reports], log)"""
+    rc, out = sh(["coqchk", "-silent", "-o", "-Q", os.path.join(COQ, "theories"), "Ristretto",
+                  "Ristretto.Properties.%s" % pid], cwd=COQ, timeout=3600)
+    axioms = []
+    ok = rc == 0
+    m = re.search(r"\* Axioms:(.*?)\n\s*\n\* Constants/Inductives relying on type-in-type:(.*?)\n\s*\n"
+                  r"\* Constants/Inductives relying on unsafe \(co\)fixpoints:(.*?)\n\s*\n"
+                  r"\* Inductives whose positivity is assumed:(.*?)(\n\s*\n|$)", out, re.S)
+    if not m:
+        return False, axioms, out
+    ax = m.group(1).strip()
+    if ax != "<none>":
+        axioms = [l.strip() for l in ax.splitlines() if l.strip()]
+    for g in (2, 3, 4):
+        if m.group(g).strip() != "<none>":
+            ok = False
+    if any(a.split()[0] not in ALLOWED_AXIOMS for a in axioms):
+        ok = False
+    return ok, axioms, out
+
+
 def build_runner():
     srcs = [os.path.join(COQ, "model.ml"), os.path.join(COQ, "model.mli")] + \
         sorted(os.path.join(ROOT, "ocaml", f) for f in os.listdir(os.path.join(ROOT, "ocaml")) if f.endswith(".ml"))
